@@ -795,34 +795,37 @@ def gen(ctx):
                     'flask-application', 'aiohttp-application', 'werkzeug-application']
     if deep:
         all_flavours += ['sync-own-response-class', 'async-own-response-class', 'async-dict-context', 'sync-dict-context']
-    narrow = [[]] + [[k] for k in MW_KINDS] + [['F'], ['P', 'F'], ['R', 'F', 'P'], ['Q', 'R', 'F']]
+    narrow = [[], ['P'], ['R'], ['S'], ['F'], ['P', 'F'], ['Q', 'R', 'F']]
+    f_docs = ['call-ok', 'call-unknown', 'call-unbound', 'call-rpcerr', 'call-typed', 'call-exc', 'call-internal', 'notify-exc',
+              'notify-rpcerr', 'batch-mixed', 'batch-one-failing', 'batch-three-notify', 'rejected-invalid']
     if deep:
-        narrow += [list(s_) for s_ in itertools.product(MW_KINDS, repeat=2)] + [['F', 'P'], ['R', 'P', 'F']]
+        narrow += [['Q'], ['A'], ['R', 'F', 'P']] + [list(s_) for s_ in itertools.product(MW_KINDS, repeat=2)] + [['F', 'P'], ['R', 'P', 'F']]
+        f_docs = names
     for stack in narrow:
         for table in FALSY_TABLES:
             for flavour in all_flavours + (['aiohttp-http-mounted', 'aiohttp-application-http'] if not stack else []):
                 http = flavour.endswith('-http') or flavour.endswith('-http-mounted')
                 if 'F' in stack and table not in FALSY_TABLES[:2]:
                     continue
-                for d in names:
+                for d in f_docs:
                     if http and d not in ('call-rpcerr', 'call-unknown', 'batch-mixed', 'notify-exc', 'call-ok'):
                         continue
                     yield 'case', dict(stack=stack, table=table, doc_name=d, flavour=flavour)
     # ---- the middleware stack handed over as something else than a list (one-shot iterables first), at every entry point that
     #      takes the dispatcher's arguments; half of the cases with handler lists that are list subclasses
-    c_stacks = [['P'], ['S'], ['Q', 'R'], ['P', 'A'], ['R', 'P', 'S'], ['Q', 'P', 'R'], ['E'], ['U', 'P']]
-    c_tables = ['none', 'both', 'two-per-key']
-    c_docs = ['call-ok', 'call-rpcerr', 'notify-ok', 'notify-exc', 'batch-mixed', 'rejected-invalid']
+    c_stacks = [['P'], ['S'], ['Q', 'R'], ['R', 'P', 'S'], ['E']]
+    c_tables = ['none', 'both']
+    c_docs = ['call-ok', 'call-rpcerr', 'notify-exc', 'batch-mixed', 'rejected-invalid']
     if deep:
-        c_stacks = [list(s_) for n in (1, 2) for s_ in itertools.product(MW_KINDS, repeat=n)] + c_stacks[4:]
-        c_tables += ['replace-generic']
-        c_docs += ['call-unknown', 'batch-one-ok', 'batch-three-notify', 'call-internal', 'rejected-dup-ids', 'call-exc']
+        c_stacks = [list(s_) for n in (1, 2) for s_ in itertools.product(MW_KINDS, repeat=n)] + [['R', 'P', 'S'], ['Q', 'P', 'R'], ['E'], ['U', 'P']]
+        c_tables += ['two-per-key', 'replace-generic']
+        c_docs += ['notify-ok', 'call-unknown', 'batch-one-ok', 'batch-three-notify', 'call-internal', 'rejected-dup-ids', 'call-exc']
     for container in MW_CONTAINERS:
         for flavour in CONTAINER_ENTRIES + CONTAINER_ENTRIES_HTTP:
             http = flavour in CONTAINER_ENTRIES_HTTP
             for stack in (c_stacks[:3] if http else c_stacks):
-                for table in (c_tables[1:2] if http else c_tables):
-                    for d in (c_docs[:5:2] if http else c_docs):
+                for table in (['both'] if http else c_tables):
+                    for d in (['call-ok', 'notify-exc', 'batch-mixed'] if http else c_docs):
                         k += 1
                         yield 'case', dict(stack=stack, table=table, doc_name=d, flavour=flavour, mw_container=container,
                                            eh_container=('list', 'list-subclass')[k % 2])
